@@ -1061,7 +1061,11 @@ class Evaluator:
         return self.eval(tb, tb.root, env, depth)
 
     # --- condition collection over a whole body (validators)
+    _seen_code_spans = None
+
     def collect_ifs(self, path, args, depth=0, follow=None, out=None, guard=()):
+        if depth == 0:
+            self._seen_code_spans = set()
         """All `if` conditions in function `path` (evaluated with args bound), in
         source order, following calls whose result is matched by `if let` when
         `follow(callee)` is true.  Returns list of dict(cond, guard, where, fn)."""
@@ -1088,7 +1092,10 @@ class Evaluator:
                         v = Sym("unsupported")
                     self.bind(st["pat"], v, env)
             else:
-                self._collect(tb, st["e"], env, depth, follow, out, guard, path)
+                r = self._collect(tb, st["e"], env, depth, follow, out, guard, path)
+                if isinstance(r, tuple) and r and r[0] == "if-diverges":
+                    # `if c { …; return }` without else: what follows runs only when c is false
+                    guard = guard + ("not " + r[1],)
         if blk.get("expr") is not None:
             self._collect(tb, blk["expr"], env, depth, follow, out, guard, path)
 
@@ -1143,6 +1150,8 @@ class Evaluator:
             for kk in list(env):
                 if env_t.get(kk) is not env[kk] or env_e.get(kk) is not env[kk]:
                     env[kk] = Sym("ite(%s,%s,%s)" % (ckey(c), vkey(env_t.get(kk)), vkey(env_e.get(kk))))
+            if n.get("else") is None and not followed and self._ends_in_return(tb, n["then"]):
+                return ("if-diverges", ckey(c))
             return
         if k == "Match":
             try:
@@ -1188,6 +1197,25 @@ class Evaluator:
                 li, ln = tb.e(ln["e"])
             if ln["k"] in ("Var", "Upvar") and ln["id"] in env:
                 env[ln["id"]] = rhs if k == "Assign" else Sym("%s(%s,%s)" % (n.get("op", "?").replace("Assign", ""), vkey(lhs), vkey(rhs)))
+        if k == "Closure" and getattr(self, "watch", None) and self.watch(n.get("def") or ""):
+            out.append({"call": n.get("def"), "args": [], "argv": [], "guard": guard, "fn": path, "node": i, "tb": tb, "closure": True})
+        if getattr(self, "watch_codes", False):
+            sp = n.get("sp") or {}
+            txt = None
+            if k == "Lit" and "str" in n:
+                txt = n["str"]
+                key = ("lit", i)
+            elif sp.get("mac") and any(m.startswith(("format!", "write!", "writeln!", "$crate::__export::format_args!", "format_args!")) for m in sp["mac"]):
+                key = ("mac", sp.get("f"), sp.get("l"), sp.get("c"), sp.get("l2"))
+                if key not in self._seen_code_spans:
+                    from .emit import first_literal, macro_source
+                    txt = first_literal(macro_source(self.f, sp))
+            if txt and key not in self._seen_code_spans:
+                self._seen_code_spans.add(key)
+                import re as _re
+                cs = ["E" + m for m in _re.findall(r"\[E(\d{2,4})\]", txt)] + ([txt] if _re.fullmatch(r"E\d{2,4}", txt) else [])
+                for c_ in cs:
+                    out.append({"code": c_, "guard": guard, "fn": path, "where": "%s:%s" % (sp.get("f"), sp.get("l"))})
         if k == "Return" and getattr(self, "watch", None):
             try:
                 rv = vkey(self.eval(tb, n["e"], env, depth))[:60000] if n.get("e") is not None else "unit"
@@ -1198,11 +1226,12 @@ class Evaluator:
             callee = n.get("res") or n.get("fn") or ""
             if self.watch(callee):
                 try:
-                    cargs = [vkey(self.eval(tb, a, env, depth))[:60000] for a in n["args"]]
+                    cargv = [self.eval(tb, a, env, depth) for a in n["args"]]
+                    cargs = [vkey(x)[:60000] for x in cargv]
                 except Unsupported:
-                    cargs = ["?"]
+                    cargv, cargs = [], ["?"]
                 sp = n.get("sp", {})
-                out.append({"call": callee, "args": cargs, "guard": guard, "where": "%s:%s" % (sp.get("f"), sp.get("l")), "fn": path, "node": i, "tb": tb})
+                out.append({"call": callee, "args": cargs, "argv": cargv, "guard": guard, "where": "%s:%s" % (sp.get("f"), sp.get("l")), "fn": path, "node": i, "tb": tb})
         if k == "Call" and follow and (n.get("res") or n.get("fn")) in self.f.fns and follow(n.get("res") or n.get("fn")) \
                 and (n.get("res") or n.get("fn")) != path:
             callee = n.get("res") or n.get("fn")
